@@ -25,7 +25,20 @@ KL = {"T": ErrorClass.TRANSIENT, "R": ErrorClass.RATE_LIMIT, "S": ErrorClass.SER
 DEFAULT_TRIP = ("T", "S")
 
 
+def _decoy_breaker():
+    """Another breaker instance with different class thresholds, built and thrown away before the
+    one under test: instances must not share mutable defaults."""
+    try:
+        d = CircuitBreaker(failure_threshold=1, class_thresholds={
+            ErrorClass.RATE_LIMIT: 1, ErrorClass.CONCURRENCY: 1, ErrorClass.UNKNOWN: 1,
+            ErrorClass.PERMANENT: 1})
+        d.record_failure(ErrorClass.RATE_LIMIT)
+    except Exception:  # noqa: BLE001
+        pass
+
+
 def make_breaker(cfg, clock):
+    _decoy_breaker()
     kw = dict(failure_threshold=cfg["threshold"], window_s=cfg["window"] * TAU,
               recovery_timeout_s=cfg["recovery"] * TAU, clock=clock)
     if cfg.get("trip_on") is not None:
